@@ -1,0 +1,54 @@
+//go:build verif
+
+package spine
+
+import (
+	"sync/atomic"
+
+	"github.com/enbility/spine-go/api"
+)
+
+// VerifHook is invoked at every verifPoint when the package is built with
+// the tag "verif". It is installed by the external verification harness and
+// may log the point and/or block the calling goroutine (schedule gate).
+var verifHook atomic.Pointer[func(point string, args ...any)]
+
+// VerifSetHook installs (or, with nil, removes) the hook function.
+func VerifSetHook(h func(point string, args ...any)) {
+	if h == nil {
+		verifHook.Store(nil)
+		return
+	}
+	verifHook.Store(&h)
+}
+
+func verifPoint(point string, args ...any) {
+	if h := verifHook.Load(); h != nil {
+		(*h)(point, args...)
+	}
+}
+
+// VerifSubscribeCore registers a handler at the core level of the event bus,
+// i.e. it is invoked synchronously inside Publish like the stack's own handler.
+func VerifSubscribeCore(handler api.EventHandlerInterface) {
+	_ = Events.subscribe(api.EventHandlerLevelCore, handler)
+}
+
+// VerifUnsubscribeCore removes a handler registered with VerifSubscribeCore.
+func VerifUnsubscribeCore(handler api.EventHandlerInterface) {
+	_ = Events.unsubscribe(api.EventHandlerLevelCore, handler)
+}
+
+// VerifEventHandlerCount reports the number of registered handlers per level.
+func VerifEventHandlerCount() (core, app int) {
+	Events.mu.Lock()
+	defer Events.mu.Unlock()
+	for _, item := range Events.handlers {
+		if item.Level == api.EventHandlerLevelCore {
+			core++
+		} else {
+			app++
+		}
+	}
+	return
+}
